@@ -385,6 +385,26 @@ def shimIds (d : Dim) : List Ref → Res (List Ref)
     | .raises e, _ => .raises e
     | _, .raises e => .raises e
 
+/-- unfixed `_element_values_dict.get(k)` (before F17): object values take part too;
+    `some none` = the lookup yields the value OBJECT of a missing element -/
+def dtLookupObj (k : Int) : List DtItem → Option (Option String)
+  | [] => none
+  | it :: l =>
+    match dtLookupObj k l with
+    | some v => some v
+    | none => if it.id = k then some it.value else none
+
+/-- unfixed datetime translation: a reference to a missing element's id becomes that element's
+    value object, which is unhashable: `TypeError` as soon as it is used as a dict key, looked
+    up in the collator's `OrderedDict`, or re-shimmed -/
+def translateDt (d : DtDim) (r : Ref) : Res Ref :=
+  match dtKey r with
+  | .int n => match dtLookupObj n d.items with
+              | some (some v) => .ok (.str v)
+              | some none => .raises "TypeError: unhashable type: 'dict'"
+              | none => .ok r
+  | _ => .ok r
+
 end Unfixed
 
 end CrCube.Shim
